@@ -1172,6 +1172,8 @@ class Sequence:
         #If there are no charged residues
         elif(self.FCR() == 0):
             self.dmax = 0
+            if returnSeqDeltaMax:
+              self.seqDeltaMax = self.seq
 
         #################################################################
         # FIRST computational trick - if only positive or negative
